@@ -49,7 +49,7 @@ def run_case(rng, idx, tier):
         return {"cls": "%s|%s|not-overlapping" % (kA, kB), "nontrivial": False, "events": ev, "viol": [],
                 "inconcl": ["generated scene does not overlap"]}
     sA, sB, cls, info = sc
-    oA, oB, L = pairs.scene(sA, sB)
+    oA, oB, L = pairs.scene(sA, sB, k=1e-6)
     A, B = pairs.build_pair(sA, sB)
     names = (O.name(sA), O.name(sB))
     viol = []; inconcl = []; worst = {}
